@@ -368,6 +368,7 @@ def check(prop, tier, seed):
                                                 {"kind": "gen", "maporder": "seed:%d" % (n + 1), "clock": 946684800}]})
     all_h = [("det", h) for h in exps] + [("hist", h) for h in hists] + [("crash", h) for h in enum]
     budget = cfg["quick_budget"] if quick else cfg["thorough_budget"]
+    budget = int(os.environ.get("VERIF_BUDGET", budget))  # seconds; for trying a tier out under a shorter wall-clock budget
     t_end = time.time() + budget
 
     def one(ix):
